@@ -27,7 +27,7 @@ func parseJSON(b []byte) interface{} {
 }
 
 func checkC08(c *hx.Ctx) {
-	c.Rule("client-built create/update/recover requests and models over all key types and both hash algorithms: (1) 6 re-serializations each (member order, whitespace, \\u escapes, number spellings) must parse to the same suffix / pass the same hash checks / resolve identically; (2) commitment(key)==hash(decoded reveal(key)) via the library vs ref; (3) IsValidModelMultihash accepted exactly when the multihash is H_alg(JCS(model)) for the algorithm it names (right hash, other algorithm, truncated digest, wrong length prefix, unknown code, hash of non-canonical bytes, bit flips); (4) unanchored long-form DIDs: valid one resolves, every single-character substitution (3 substitutes per position) / insertion / deletion of the encoded segment, non-canonical re-encodings and every single-member alteration of suffix data and delta must be rejected; non-trivial = alteration or re-serialization that differs bytewise from the original; distinct = distinct altered inputs")
+	c.Rule("client-built create/update/recover requests and models over all key types and both hash algorithms: (1) 6 re-serializations each (member order, whitespace, \\u escapes, number spellings) must parse to the same suffix / pass the same hash checks / resolve identically; (2) commitment(key)==hash(decoded reveal(key)) via the library vs ref; (3) IsValidModelMultihash accepted exactly when the multihash is H_alg(JCS(model)) for the algorithm it names (right hash, other algorithm, truncated digest, wrong length prefix, unknown code, hash of non-canonical bytes, bit flips); (4) unanchored long-form DIDs: valid one resolves, every single-character substitution (3 substitutes per position) / insertion / deletion of the encoded segment, non-canonical re-encodings every single-member alteration of suffix data and delta, and every alteration of the suffix segment (also through a handler configured with label, domain and alias) must be rejected; (5) an anchored create whose well-formed delta was substituted resolves to an empty document without update commitment and the substituted key cannot update it; non-trivial = alteration or re-serialization that differs bytewise from the original; distinct = distinct altered inputs")
 	nCases := c.N(400, 4000)
 	root := c.Rng("cases")
 	seeds := make([]uint64, nCases)
@@ -295,6 +295,48 @@ func checkC08(c *hx.Ctx) {
 		if !ok {
 			return
 		}
+		// alterations of the suffix segment itself, through a plain handler and through one configured with a label / domain
+		// (rarely used options that change how the DID string is taken apart)
+		label := fmt.Sprintf("lbl%d", i%7)
+		dhL := dochandler.New(hx.Namespace, []string{"did:alias"}, pc, &hx.RecWriter{}, proc, hx.NopMetrics{}, dochandler.WithLabel(label), dochandler.WithDomain("https://dom.example"))
+		if _, err := dhL.ResolveDocument(hx.Namespace + ":" + label + ":" + d.Suffix + ":" + seg); err != nil {
+			c.Violation("C08 valid long-form DID carrying the configured label does not resolve: "+err.Error(), map[string]interface{}{"did": hx.Namespace + ":" + label + ":" + d.Suffix + ":" + seg})
+			return
+		}
+		c.Count("longform_with_label_resolved")
+		sfx := d.Suffix
+		pos := r.Intn(len(sfx))
+		sub := b64url[(strings.IndexByte(b64url, sfx[pos])+1+r.Intn(62))%64]
+		for _, alt := range []struct{ kind, suffix string }{
+			{"suffix prefixed with the configured label", label + sfx},
+			{"suffix prefixed with a character", "E" + sfx},
+			{"suffix followed by a character", sfx + "A"},
+			{"suffix followed by the configured label", sfx + label},
+			{"suffix character substituted", sfx[:pos] + string(sub) + sfx[pos+1:]},
+			{"suffix first character removed", sfx[1:]},
+			{"suffix last character removed", sfx[:len(sfx)-1]},
+			{"suffix in other letter case", strings.ToUpper(sfx)},
+		} {
+			if alt.suffix == sfx {
+				continue
+			}
+			for hi, h := range []*dochandler.DocumentHandler{dh, dhL} {
+				forms := []string{hx.Namespace + ":" + alt.suffix + ":" + seg}
+				if hi == 1 {
+					forms = append(forms, hx.Namespace+":"+label+":"+alt.suffix+":"+seg, "did:alias:"+alt.suffix+":"+seg)
+				}
+				for _, did := range forms {
+					c.Eval()
+					if _, err := h.ResolveDocument(did); err == nil {
+						c.Violation(fmt.Sprintf("C08 long-form DID whose suffix is not the hash of the embedded suffix data was accepted (%s, handler with label=%v)", alt.kind, hi == 1),
+							map[string]interface{}{"original": didPrefix + seg, "altered": did, "kind": alt.kind, "label": label})
+						return
+					}
+					c.Count("longform_rejected:suffix-altered")
+					c.Distinct(did)
+				}
+			}
+		}
 		// valid initial state under a different suffix
 		if !mustReject("suffix does not match initial state", hx.Namespace+":"+ref.EncMultihash(code, []byte("another"))+":"+seg) {
 			return
@@ -307,11 +349,42 @@ func checkC08(c *hx.Ctx) {
 				c.Count("observed_not_judged:top-level type member accepted")
 			}
 		}
+		// ---------- (5) the delta hash binds the delta of an ANCHORED create as well: a create whose (well-formed) delta was
+		// substituted after the suffix data was fixed yields an empty document and no update commitment, so the key named by
+		// the substituted delta cannot update the DID
+		if i%4 == 0 {
+			pu := hx.BaseProtocol()
+			pu.MultihashAlgorithms = []uint{uint(code)}
+			u := NewUniverse(r.Split("bind"), code, pu, []string{types[0], "P-256"})
+			spec := *u.Create
+			evil := ref.Delta(u.X[0].Commitment(code), []interface{}{patchAddServices(svcEntry("evil", "x", "https://evil.example"))})
+			spec.DeltaHashOverride = ref.HashModel(code, spec.Delta)
+			spec.Delta = evil
+			cr := &ref.Op{Label: "create-with-substituted-delta", Type: "create", Request: ref.MustJCS(spec.Request()), Parses: true,
+				CreateRecovery: spec.RecoveryCommitment, NextUpdate: u.X[0].Commitment(code), DeltaStatus: ref.DeltaMismatch,
+				Patches: evil["patches"].([]interface{}), AnchorOrigin: spec.AnchorOrigin, MaxDelta: u.MaxDelta}
+			up := u.MkSigned("update-by-substituted-key", "update", u.X[0], "", u.X[1].Commitment(code),
+				[]interface{}{patchAddKeys(pubKeyEntry("injected", u.X[1], "authentication"))}, SignedOpts{})
+			H := []*ref.Op{Place(cr, 1000, 0, "ref0", 0), Place(up, 1010, 0, "ref1", 0)}
+			pcu := hx.NewClient(hx.NewVersion(pu, hx.VersionOpts{ParserOpts: hx.StrictResolution()}))
+			c.Eval()
+			st, merr := ref.Resolve(H, ref.ResolveOpts{})
+			rm, err := SUTResolve(pcu, u.Suffix, H, nil)
+			if want, got := stKey(st, merr), rmKey(rm, err); want != got {
+				c.Violation("C08 an anchored create whose delta does not match the delta hash in its suffix data still binds state from that delta\n   model:   "+want+"\n   library: "+got,
+					map[string]interface{}{"suffix": u.Suffix, "history": replayOps(H), "model": want, "library": got})
+				return
+			}
+			c.Count("anchored_create_with_substituted_delta")
+		}
 		if i < 2 {
 			c.Sample(2, map[string]interface{}{"long_form_did": didPrefix + seg, "key_type": types[0], "multihash": code})
 		}
 	})
+	c.Floor("anchored_create_with_substituted_delta", 20)
 	c.Floor("longform_valid_resolved", 20)
+	c.Floor("longform_with_label_resolved", 20)
+	c.Floor("longform_rejected:suffix-altered", 200)
 	c.Floor("longform_rejected:substitution", 1000)
 	c.Floor("longform_rejected:non-canonical-encoding", 20)
 	c.Floor("multihash_case_ok=true", 40)
